@@ -169,6 +169,22 @@ package utils
 //@   loop 1 invariant key_count: len(ks) == len(m)
 
 // ---------------------------------------------------------------------------
+// C12: text to typed value. An identityref is stored with the identity it names and with the prefix and the module
+// the schema gives for that identity, whatever qualifier the text came with (a YANG prefix in XML, a module name in
+// JSON_IETF): two spellings of one identity are one value. What strings.Cut splits off is not claimed (library).
+//@ pred idrefOf(tv) = dyn(tv.Value, *sdcpb.TypedValue_IdentityrefVal).IdentityrefVal
+//@ func convertStringToTv
+//@   props C12 C20
+//@   ensures identityref_carries_the_prefix_and_module_of_the_schema [C12]: schemaType != nil && schemaType.Type == "identityref" && r1 == nil ==>
+//@            r0 != nil && istype(r0.Value, *sdcpb.TypedValue_IdentityrefVal) && dyn(r0.Value, *sdcpb.TypedValue_IdentityrefVal) != nil && idrefOf(r0) != nil &&
+//@            present(schemaType.IdentityPrefixesMap, idrefOf(r0).Value) && present(schemaType.ModulePrefixMap, idrefOf(r0).Value) &&
+//@            idrefOf(r0).Prefix == schemaType.IdentityPrefixesMap[idrefOf(r0).Value] && idrefOf(r0).Module == schemaType.ModulePrefixMap[idrefOf(r0).Value]
+//@   ensures identityref_names_what_follows_the_qualifier [C12]: schemaType != nil && schemaType.Type == "identityref" && r1 == nil ==>
+//@            idrefOf(r0).Value == ite(callres(Cut, 0, 2), callres(Cut, 0, 1), callres(Cut, 0, 0)) && callarg(Cut, 0, 0) == v
+//@   loop 0 invariant true
+//@   loop 1 invariant true
+
+// ---------------------------------------------------------------------------
 // C20: no-panic sweep over the request-path helpers of this package (no annotation: any argument, any content)
 //@ sweep C20: ParsePath toPathElems toPathElem parseXPathKeys StripPathElemPrefix StripPathElemPrefixPath ToXPath CompletePath
 //@   NormalizedAbsPath relativeToAbsPath hasRelativePathElem CopyPath PathsEqual peEqual
